@@ -46,6 +46,15 @@ impl FsCfg {
 pub struct ScriptRng {
     pub q: Arc<Mutex<VecDeque<u64>>>,
     pub unscripted: Arc<Mutex<u64>>,
+    /// answer unscripted draws with "no" (fs engine) instead of the fallback generator
+    pub plain_no: bool,
+    /// per-instance deterministic source for draws the harness does not script (latency
+    /// variates whose value is irrelevant because min == max)
+    pub fallback: rand::rngs::SmallRng,
+}
+
+pub fn fallback_rng() -> rand::rngs::SmallRng {
+    <rand::rngs::SmallRng as rand::SeedableRng>::seed_from_u64(0x5eed)
 }
 
 impl rand::RngCore for ScriptRng {
@@ -57,8 +66,12 @@ impl rand::RngCore for ScriptRng {
             Some(v) => v,
             None => {
                 *self.unscripted.lock().unwrap() += 1;
-                // "no" for random_bool; crash scripts pad their own queue
-                u64::MAX
+                if self.plain_no {
+                    // "no" for random_bool; crash scripts pad their own queue
+                    u64::MAX
+                } else {
+                    rand::RngCore::next_u64(&mut self.fallback)
+                }
             }
         }
     }
@@ -86,7 +99,7 @@ pub fn pick(k: u64, n: u64) -> u64 {
 pub fn calibrate() -> Result<(), String> {
     use rand::Rng;
     let q = Arc::new(Mutex::new(VecDeque::new()));
-    let mut r = ScriptRng { q: q.clone(), unscripted: Arc::new(Mutex::new(0)) };
+    let mut r = ScriptRng { q: q.clone(), unscripted: Arc::new(Mutex::new(0)), plain_no: true, fallback: fallback_rng() };
     for yes in [true, false] {
         for p in [0.5f64, 0.01, 0.99] {
             q.lock().unwrap().push_back(coin(yes));
@@ -142,7 +155,7 @@ fn mkfs(cfg: &FsCfg, q: &Arc<Mutex<VecDeque<u64>>>, u: &Arc<Mutex<u64>>) -> Arc<
         c.block_size(b);
     }
     let mut fs = Fs::new(c, 1);
-    fs.rng = Box::new(ScriptRng { q: q.clone(), unscripted: u.clone() });
+    fs.rng = Box::new(ScriptRng { q: q.clone(), unscripted: u.clone(), plain_no: true, fallback: fallback_rng() });
     Arc::new(Mutex::new(fs))
 }
 
